@@ -21,7 +21,8 @@ RULE = ("for each scenario (version x flavour x {ideal, 1-byte} transport x "
         "fault); non-trivial = the planned fault actually fired inside an "
         "operation (or the alert was delivered)"
         " Family dead_peer: the peer died after sending a fatal alert (or data); this endpoint's next send (application data, KeyUpdate, post-handshake CertificateRequest, ClientHello) fails with EPIPE/ECONNRESET while the alert is readable / lost / replaced by data: the call raises, the alert (when readable and the record is handshake-type) surfaces as TLSRemoteAlert, the connection is closed and not resumable."
-        ' Under ignoreAbruptClose only a missing close_notify (EOF) may be ignored, a reset must raise.')
+        ' Under ignoreAbruptClose only a missing close_notify (EOF) may be ignored, a reset must raise.'
+        " Family gone_reply: the peer wrote (heartbeat request,) data and close_notify and is gone; the replies this endpoint owes (heartbeat response, close_notify) fail with EPIPE / reset / timeout while it reads: data is delivered, the next read returns empty, the session stays resumable, writes raise the closed-connection error.  Alert placements also with the alert split into two one-byte records (sender's recordSize 1, TLS <= 1.2).")
 LEVEL_TEXT = ("Fault enumeration: exhaustive over the socket-call index space "
               "of the listed scenarios on the ideal transport (and in the "
               "thorough tier also on the 1-byte transport), one fault per "
@@ -39,6 +40,8 @@ PROBES = ["fault_eof", "fault_reset", "fault_epipe", "in_handshake",
           "alert_fatal", "ignore_abrupt", "no_close_socket", "byte_policy",
           "remote_alert_surfaced", "abrupt_close_seen", "orderly_close_seen",
           "dead_peer", "dead_write", "dead_keyupdate", "dead_pha",
+          "alert_fragmented", "gone_reply", "gone_heartbeat_sent", "gone_close",
+          "gone_data_close",
           "dead_hello", "alert_readable", "alert_lost", "alert_data"]
 COMPONENTS_REAL = ["tlslite handshake/read/write/close paths incl. "
                    "_sendMsgThroughSocket error path, _shutdown, "
@@ -108,7 +111,7 @@ ALERTS = [("close_notify", 1, 0), ("warning", 1, 90), ("fatal", 2, 40),
           ("fatal", 2, 80), ("warning", 1, 100)]
 
 
-def alert_script(sender, place, level, desc):
+def alert_script(sender, place, level, desc, frag=False):
     """sender writes 3 records; alert placed before record `place` (0..3);
     receiver reads with a min that needs all three."""
     rcv = "s" if sender == "c" else "c"
@@ -116,11 +119,11 @@ def alert_script(sender, place, level, desc):
     off = 0
     for i in range(3):
         if i == place:
-            out.append([sender, "alert", level, desc])
+            out.append([sender, "alert", level, desc, frag])
         out.append([sender, "write", off, 100])
         off += 100
     if place == 3:
-        out.append([sender, "alert", level, desc])
+        out.append([sender, "alert", level, desc, frag])
     out.append([rcv, "read", None, 300])
     out.append([rcv, "read", None, 1])
     out.append([rcv, "write", 0, 10])
@@ -155,6 +158,18 @@ def execute(seed, sc, policy, flags, script, plan_fault=None):
             return lambda: conn.closeAsync()
         if op[1] == "alert":
             from tlslite.messages import Alert
+            if len(op) > 4 and op[4]:
+                # the sender's application set recordSize to 1: the alert
+                # travels as two one-byte records (legal before TLS 1.3)
+                def fragmented():
+                    old_rs = conn.recordSize
+                    conn.recordSize = 1
+                    try:
+                        for r in conn._sendMsg(Alert().create(op[3], op[2])):
+                            yield r
+                    finally:
+                        conn.recordSize = old_rs
+                return fragmented
             return lambda: conn._sendMsg(Alert().create(op[3], op[2]))
         raise ValueError(op)
 
@@ -214,6 +229,12 @@ def plan(tier, base_seed):
                         jobs.append({"seed": si + 1, "fam": "alert",
                                      "si": si, "policy": "ideal", "fi": fi,
                                      "alert": [sender, place, level, desc]})
+                        if SCENARIOS[si]["version"] != [3, 4]:
+                            jobs.append({"seed": si + 1, "fam": "alert",
+                                         "si": si, "policy": "ideal",
+                                         "fi": fi,
+                                         "alert": [sender, place, level,
+                                                   desc, True]})
     # the peer died with a fatal alert; the next record this endpoint sends
     # fails in the transport while the alert is still waiting to be read
     for si in ({"quick": [1, 2, 0, 9], "thorough": range(nsc)}[tier]):
@@ -237,6 +258,17 @@ def plan(tier, base_seed):
                 jobs.append({"seed": si + 1, "fam": "dead_peer", "si": si,
                              "policy": "ideal", "fi": fi,
                              "dead": ["c", "hello", f, 40, "readable"]})
+    # the peer wrote (heartbeat request,) data and close_notify and is gone:
+    # the courtesy replies of this endpoint (heartbeat response, answering
+    # close_notify) fail in the transport while it reads
+    for si in ({"quick": [0, 1, 4, 3], "thorough": range(nsc)}[tier]):
+        for fi in range(4):
+            for actor in "cs":
+                for var in ("data_close", "hb_data_close", "close"):
+                    for f in ("epipe", "reset", "timeout"):
+                        jobs.append({"seed": si + 1, "fam": "gone_reply",
+                                     "si": si, "policy": "ideal", "fi": fi,
+                                     "gone": [actor, var, f]})
     # base_seed rotates which jobs come first under a budget
     if jobs:
         k = base_seed % len(jobs)
@@ -259,12 +291,15 @@ def run(job, streams=None):
     fam = job["fam"]
     if fam == "dead_peer":
         return run_dead_peer(job, sc, flags)
+    if fam == "gone_reply":
+        return run_gone_reply(job, sc, flags)
     if fam == "fault":
         script = BASE_SCRIPT
         pf = tuple(job["fault"])
     else:
         a = job["alert"]
-        script = alert_script(a[0], a[1], a[2], a[3])
+        script = alert_script(a[0], a[1], a[2], a[3],
+                              len(a) > 4 and a[4])
         pf = None
     sim, pair, tp, st, hs_calls = execute(job["seed"], sc, job["policy"],
                                           flags, script, pf)
@@ -306,8 +341,9 @@ def run(job, streams=None):
         ep = eps[w]
         peer = "s" if w == "c" else "c"
         faulted_here = pf is not None and pf[0] == w and fired
-        got_alerts = [tuple(b) for t, b in tp[w][0].accepted if t == 21
-                      and len(b) == 2]
+        # (an alert may arrive in two one-byte records before TLS 1.3)
+        ab = b"".join(b for t, b in tp[w][0].accepted if t == 21)
+        got_alerts = [tuple(ab[i:i + 2]) for i in range(0, len(ab) - 1, 2)]
         got_close_notify = (1, 0) in got_alerts or \
             any(a[1] == 0 for a in got_alerts)
         failed = False
@@ -430,6 +466,8 @@ def run(job, streams=None):
         rcv = "s" if a[0] == "c" else "c"
         name = [n for n, l, d in ALERTS if l == a[2] and d == a[3]][0]
         probes["alert_" + name] = 1
+        if len(a) > 4 and a[4]:
+            probes["alert_fragmented"] = 1
         hist = eps[rcv].history
         excs = [o.exc for o in hist if o.kind == "exc"]
         if a[3] != 0:
@@ -461,6 +499,113 @@ def run(job, streams=None):
             "digest": h.hexdigest(), "faults": dict(sim.stats),
             "probes": probes, "steps": sim.steps, "order": "",
             "states": ["%s/%s/%s" % (si, fam, phase)],
+            "streams": {}, "inconclusive": False,
+            "sample": {"scenario": sc, "job": {k: v_ for k, v_ in job.items()
+                                               if k != "keep"}}}
+
+
+def run_gone_reply(job, sc, flags):
+    """Orderly close by a peer that is gone by the time this endpoint reads:
+    what the peer wrote is delivered, the read after it returns empty, the
+    session stays resumable - although the replies this endpoint owes
+    (heartbeat response, close_notify) cannot be written any more."""
+    from tlslite.errors import TLSClosedConnectionError
+    from tlslite.messages import Alert
+    actor, var, f = job["gone"]
+    peer = "s" if actor == "c" else "c"
+    sim = nodes.new_run(job["seed"], chooser=kernel.Chooser(streams={}),
+                        max_steps=200000, sched="first")
+    pair = nodes.Pair(sim, sc, policy="ideal")
+    hb_seen = []
+    pair.cset.heartbeat_response_callback = lambda m: hb_seen.append(1)
+    pair.sset.heartbeat_response_callback = lambda m: hb_seen.append(1)
+    for ep in (pair.c, pair.s):
+        ep.conn.closeSocket = flags[0]
+        ep.conn.ignoreAbruptClose = flags[1]
+    eps = {"c": pair.c, "s": pair.s}
+    viol = []
+    probes = {"gone_reply": 1, "gone_" + var: 1}
+    ctx = "[%s %s]" % (json.dumps(sc, sort_keys=True, default=str),
+                       json.dumps({"gone": job["gone"], "fi": job["fi"]}))
+
+    def v(rule, sig, msg):
+        viol.append({"rule": rule, "sig": sig, "msg": msg + " " + ctx})
+
+    A, P = eps[actor], eps[peer]
+    oc, os_, st = pair.handshake()
+    if not (oc.kind == "ok" and os_.kind == "ok"):
+        raise RuntimeError("gone_reply baseline handshake failed: %r %r"
+                           % (oc.exc, os_.exc))
+    data = b"z" * 40
+
+    def op_gen(ep, op):
+        conn = ep.conn
+        if op[1] == "close_notify":
+            return lambda: conn._sendMsg(Alert().create(0, 1))
+        if op[1] == "hb":
+            return lambda: conn.write_heartbeat(bytearray(b"ping"), 16)
+        if op[1] == "write":
+            return lambda: conn.writeAsync(data)
+        if op[1] == "read":
+            return lambda: conn.readAsync(None, op[2])
+        raise ValueError(op)
+    pscript = []
+    hb = var == "hb_data_close" and P.conn.heartbeat_supported and \
+        P.conn.heartbeat_can_send
+    if hb:
+        pscript.append([peer, "hb"])
+        probes["gone_heartbeat_sent"] = 1
+    if var != "close":
+        pscript.append([peer, "write"])
+    pscript.append([peer, "close_notify"])
+    st = sim_script.run_script(sim, eps, pscript, op_gen)
+    P.sock.abort()
+    A.sock.peer_gone = f
+    ascript = ([[actor, "read", 40]] if var != "close" else []) + \
+        [[actor, "read", 1], [actor, "write"]]
+    st = sim_script.run_script(sim, eps, ascript, op_gen)
+    outs = [o for o in A.history if o.desc[0] != "handshake"]
+    if A.sock.fired:
+        probes["fault_" + f] = 1
+    if st != "idle":
+        v("liveness", "status_%s|gone_reply" % st, "simulation ended %s" % st)
+    want = ([data] if var != "close" else []) + [b""]
+    for i, w_ in enumerate(want):
+        o = outs[i] if i < len(outs) else None
+        if o is None or o.kind != "ok" or bytes(o.value) != w_:
+            v("orderly_close_broken", "%s|%s|%s" % (
+                var, "data" if w_ else "eof",
+                type(o.exc).__name__ if o is not None and o.kind == "exc"
+                else (o.kind if o is not None else None)),
+              "%s read #%d after the peer's orderly close: wanted %r, got "
+              "%s %r" % (actor, i, w_, o and o.kind,
+                         o and (o.exc if o.kind == "exc" else o.value)))
+            break
+    else:
+        last = outs[len(want) - 1]
+        closed_after, resumable_after = last.post
+        if closed_after is False:
+            v("not_closed", "gone_reply|%s" % var,
+              "connection open after close_notify was read")
+        if resumable_after is False:
+            v("orderly_close_broken", "%s|not_resumable" % var,
+              "session not resumable after the peer's orderly close")
+        wr = outs[len(want)] if len(outs) > len(want) else None
+        if wr is None or wr.kind != "exc" or not isinstance(
+                wr.exc, TLSClosedConnectionError):
+            v("write_after_close", "gone_reply|%s" % (wr and wr.kind),
+              "write after the orderly close: %r" %
+              (wr and (wr.exc or wr.value),))
+    key = json.dumps([job["si"], job["fi"], job["gone"]])
+    h = hashlib.sha256()
+    h.update(bytes(pair.link.c2s.wire_log))
+    h.update(bytes(pair.link.s2c.wire_log))
+    h.update(repr([o.sig() for w in "cs" for o in eps[w].history]).encode())
+    h.update(json.dumps([x["sig"] for x in viol]).encode())
+    return {"violations": viol, "nontrivial": bool(A.sock.fired), "key": key,
+            "digest": h.hexdigest(), "faults": dict(sim.stats),
+            "probes": probes, "steps": sim.steps, "order": "",
+            "states": ["%s/gone_reply/%s" % (job["si"], var)],
             "streams": {}, "inconclusive": False,
             "sample": {"scenario": sc, "job": {k: v_ for k, v_ in job.items()
                                                if k != "keep"}}}
